@@ -58,7 +58,7 @@ def run_check(pid, tier, seed):
     t0 = time.time()
     drv = load_driver(pid)
     spec = drv.plan(tier, seed)
-    acc = pool.run_tasks(spec['tasks'], deadline=spec.get('deadline', 1500 if tier == 'quick' else 6 * 3600))
+    acc = pool.run_tasks(spec['tasks'], deadline=spec.get('deadline', 900 if tier == 'quick' else 6 * 3600))
     if hasattr(drv, 'finish'):
         drv.finish(acc, spec)
     dropped = confirm_timeouts(acc)
